@@ -7,7 +7,7 @@
 (* all optimisation levels and lets Trace_QB.tla validate the runs.            *)
 EXTENDS QBValues, TLC, Json, IOUtils
 Bnd == JsonDeserialize(IOEnv.BND)       \* sequence of boundary values <<kind, a, b>>
-Ops == <<"add", "sub", "mul", "div", "idiv", "mod", "eq", "ne", "lt", "gt", "le", "ge",
+Ops == <<"add", "sub", "mul", "div", "pow", "idiv", "mod", "eq", "ne", "lt", "gt", "le", "ge",
          "and", "or", "xor", "eqv", "imp">>
 UOps == <<"neg", "not">>
 
